@@ -21,7 +21,7 @@ def run(ctx):
     quick = ctx.tier == "quick"
     kfs = vlib.known_findings("C03")
     reps = 40 if quick else 1500
-    cmd, cases, st = semlib.run_semdrv(ctx, "conc", ctx.seed, 0, extra="-reps %d %s" % (reps, "-norace" if quick else ""))
+    cmd, cases, st = semlib.run_semdrv(ctx, "conc", ctx.seed, 0, extra="-reps %d %s -gen %d" % (reps, "-norace" if quick else "", 12 if quick else 150))
     known = {k["item"]: k for k in kfs if k.get("class") == "catalogue"}
     table = {}
     for c in cases:
@@ -34,7 +34,9 @@ def run(ctx):
             vlib.violation(ctx, "concurrent-" + c["pkg"], dict(semlib.replay_of(cmd, c), kind="a Go result is not an outcome of the emitted program, or the emitted program has a deadlocking / stuck / non-terminating interleaving, or more outcomes than Go"), True)
     ctx.cov.update({
         "evaluations": st["cases"], "distinct_nontrivial": st["calls"],
-        "rule": "a case is one concurrent Go program (2-3 goroutines joined by a wait group or a condition variable before the result is read); it is run natively %d times "
+        "rule": "a case is one concurrent Go program: the 24 of the catalogue (2-3 goroutines joined by a wait group or a condition variable before the result is read) and generated ones "
+                "(1-2 workers updating one or two shared variables with commuting additions inside critical sections of one mutex, one publishing through a pointer before its Done, "
+                "the main goroutine possibly taking part, joined by a wait group; drawn from the seed); it is run natively %d times "
                 "and the set of results collected; goose's output is explored exhaustively: all interleavings of the threads at every step that reads or writes the state "
                 "(a thread waiting on a condition variable re-acquires only after another thread made progress; threads that only wait for each other are reported as a "
                 "deadlock); compared: Go's results are model outcomes, no deadlock/stuck/non-terminating schedule, unique Go result implies the same unique model outcome" % reps,
